@@ -1,7 +1,8 @@
 /-
 C04 in the yaserde environment model `Ya`: deserialising what was serialised gives the value back, and
 serialise-deserialise-serialise is a fixpoint — for every program of the core class (complex types with element
-members of primitive or struct type in any wrapper and primitive attributes; simple-type wrappers), every struct
+members of primitive or struct type in any wrapper, attributes of primitive type or of a simple-type wrapper type;
+simple-type wrappers), every struct
 and every well-typed value whose primitive texts are non-empty and in `Display` form. The excluded point (the
 empty string) is a theorem too: it is lost.
 -/
